@@ -44,7 +44,7 @@ INDEX_KINDS = ("1d:int", "1d:unsorted", "1d:str", "1d:datetime")
 def required(tier):
     cells = [f"cls:{c}" for c in cc.CLASSES] + [f"z:{z}" for z in ZKINDS] + [f"container:{k}" for k in cc.CONTAINERS]
     cells += [f"layout:{k}" for k in cc.LAYOUTS] + ["normalized:True", "normalized:False", "splits:exhaustive", "splits:random"]
-    cells += [f"subset:{k}" for k in ("single", "sorted", "unsorted", "repeated", "grid")] + ["empty_element+repeated_labels"]
+    cells += [f"subset:{k}" for k in ("single", "sorted", "unsorted", "repeated", "grid")] + ["empty_element+repeated_labels", "xy_different_samples"]
     return {"mon": ["value_comparisons", "finite_checks", "split_comparisons", "subset_comparisons"], "cover": cells}
 
 
@@ -337,6 +337,33 @@ def run_case(case, obs):
                         obs.count("split_comparisons")
                         if onz[i].shape[1] >= 2:
                             obs.nontrivial = True
+
+
+    # ---- (e) cross-set: X and Y of ONE call carry different sample sets ------------------------------------
+    # each field's scores depend only on that field's samples: the X result must be labelled by X's samples
+    # and the Y result by Y's, with the values of the separate transforms (never re-indexed onto each other)
+    if nfld == 2 and fitted.kind in ("cross", "cross_rot") and zlay["sizes"][0] >= 3 and not z_nan:
+        size = zlay["sizes"][0]
+        cut = max(1, size // 3)
+        partA, partB = list(range(0, size - cut)), list(range(cut, size))[::-1]
+        obs.cell("xy_different_samples")
+        idxA = [list(range(s_)) for s_ in zlay["sizes"]]
+        idxB = [list(range(s_)) for s_ in zlay["sizes"]]
+        idxA[0], idxB[0] = partA, partB
+        rowsA, rowsB = cc.rows_of(zlay, idxA), cc.rows_of(zlay, idxB)
+        PX = cc.isel_field(Z[0], {zs[0]: partA})
+        PY = cc.isel_field(Z[1], {zs[0]: partB})
+        xtags = etags(False, ztags["stacked_samples"], [zk[r] for r in rowsA])
+        xctx = dict(ctx, what="xy_different_samples")
+        TXY = call("transform(X on A, Y on B)", [PX, PY], xtags, xctx)
+        if TXY is not None:
+            for i, (t, rows) in enumerate(zip(TXY, (rowsA, rowsB))):
+                cc.compare(
+                    obs, "xy_diff", t, zs, [zk[r] for r in rows], onz[i][rows], zvalid[rows], modes[i], tol,
+                    {"stacked_samples": ztags["stacked_samples"]}, "field_depends_on_other_fields_samples", "labels_not_from_new_data",
+                    ctx=dict(xctx, field=i, **xtags), vtags=cc.field_tags(case, i),
+                )
+            obs.count("xy_different_samples_comparisons")
 
 
 def evidence_extra(results, extras):
